@@ -146,6 +146,41 @@ C14_roundtrip(G) == \A m \in 1..Len(G.members) :
                       /\ Fin(G, m).digest = Fin(G, m).digest_rt
                       /\ Fin(G, m).trans = Fin(G, m).trans_rt
 
+(* C19: the same history replayed in processes with different hash seeds *)
+C19_same(G) == \A a, b \in 1..Len(G.members) :
+                 /\ Fin(G, a).graph = Fin(G, b).graph
+                 /\ Fin(G, a).inspect = Fin(G, b).inspect
+                 /\ Fin(G, a).trail = Fin(G, b).trail
+                 /\ Fin(G, a).errors = Fin(G, b).errors
+                 /\ Fin(G, a).output = Fin(G, b).output
+
+(* C20: shorthand and long form denote the same *)
+C20_same(G) ==
+  \A a \in Members(G, "short"), b \in Members(G, "long") :
+     /\ Fin(G, a).graph = Fin(G, b).graph /\ Fin(G, a).inspect = Fin(G, b).inspect
+     /\ Fin(G, a).trail = Fin(G, b).trail /\ Fin(G, a).ctxs = Fin(G, b).ctxs
+     /\ Fin(G, a).output = Fin(G, b).output /\ Fin(G, a).status = Fin(G, b).status
+     /\ Fin(G, a).errors = Fin(G, b).errors
+C20_denote(G) ==
+  G.case.kind = "params" =>
+     \A a \in 1..Len(G.members) : Fin(G, a).parsed = G.case.denote
+
+(* C16: values through the data path *)
+C16_preserved(G) ==
+  \A m \in 1..Len(G.members) :
+     /\ Fin(G, m).status = "succeeded"
+     /\ \A i \in 1..Len(Fin(G, m).stages) : Fin(G, m).stages[i][2] = Fin(G, m).expect
+C16_pure(G) ==
+  \A m \in 1..Len(G.members) :
+     /\ \A i \in 1..Len(Fin(G, m).pure) :
+          Fin(G, m).pure[i][1] = "evaluate_ctx_unchanged" => Fin(G, m).pure[i][2] = "same"
+     \* the stored initial context is the same after every event
+     /\ \A i, j \in 1..Len(Fin(G, m).ctx0) : Fin(G, m).ctx0[i] = Fin(G, m).ctx0[j]
+C16_hidden(G) ==
+  \A m \in 1..Len(G.members) :
+     /\ \A i \in 1..Len(Fin(G, m).hidden) : Fin(G, m).hidden[i][2] = << >>
+     /\ \A i \in 1..Len(Fin(G, m).priv) : Fin(G, m).priv[i][3] = "rejected"
+
 (* C15: a single-fault mutant must be reported in the expected category at the expected position *)
 C15_reported(G) ==
   \A m \in 1..Len(G.members) :
@@ -168,6 +203,9 @@ Rel(G) ==
                            \cup FG("C14_roots", C14_roots(G)) \cup FG("C14_order_independent", C14_order_independent(G))
                            \cup FG("C14_roundtrip", C14_roundtrip(G))
     [] G.kind = "inspect" -> FG("C15_reported", C15_reported(G))
+    [] G.kind = "seed" -> FG("C19_same", C19_same(G))
+    [] G.kind = "shorthand" -> FG("C20_same", C20_same(G)) \cup FG("C20_denote", C20_denote(G))
+    [] G.kind = "datapath" -> FG("C16_preserved", C16_preserved(G)) \cup FG("C16_pure", C16_pure(G)) \cup FG("C16_hidden", C16_hidden(G))
     [] G.kind = "rerun" -> FG("C17_converge", C17_converge(G))
     [] OTHER -> {"unknown_group_kind"}
 
